@@ -311,6 +311,8 @@ class Stats:
         self.loud_failures = 0
         self.sweep_variants = 0
         self.header_alone = 0
+        self.hashseed_runs = 0
+        self.hashseed_differs = 0
         self.tool_lines = set()
         self.sessions = 0
         self.session_invocations = 0
@@ -485,7 +487,10 @@ def run_campaign(tier, seed, jobs, only_runs=None):
                 fplan = _check.make_faulty(plan, var)
                 # spread the sweep over all simulator workers (the hash seed is part of the case,
                 # so each variant still replays exactly)
-                fplan["hashseed"] = _plan.HASHSEEDS[hash_spread(var["variant"]) % len(_plan.HASHSEEDS)]
+                hs = _plan.HASHSEEDS[hash_spread(var["variant"]) % len(_plan.HASHSEEDS)]
+                if hs != fplan.get("hashseed"):
+                    fplan["base_hashseed"] = fplan.get("hashseed", 0)  # the twin ran under this one
+                    fplan["hashseed"] = hs
                 frec = _check.evaluate_faulty(ctx, fplan, tres, tdata)
                 frec["_case"] = fplan
                 account_faulty(frec, fplan)
@@ -494,6 +499,30 @@ def run_campaign(tier, seed, jobs, only_runs=None):
             with ThreadPoolExecutor(jobs) as ex:
                 records[ix].extend(ex.map(one, variants))
             say("  sweep %s: %d fault variants over %d input files, %d output bytes, %d steps (%.0f s)" % (plan["run"], len(variants), len(tres["opened"]), tres["out_len"], tres["steps"], _perf() - t0))
+        # hash-seed sweep: the first two sweep plans again, fault-free, under many PYTHONHASHSEEDs
+        # (each in a fresh interpreter); a result may not depend on string hashing
+        n_hs = {"quick": (96, 32), "thorough": (1024, 256)}[tier]
+        for (ix, plan, tres, tdata), n in zip(sorted(sweep_jobs, key=lambda j: j[0])[:2], n_hs):
+            def one_hs(hs, plan=plan, tres=tres, tdata=tdata):
+                fplan = copy.deepcopy(plan)
+                fplan["base_hashseed"] = plan["hashseed"]
+                fplan["hashseed"] = 1000 + hs
+                fplan["variant"] = "hashseed-%d" % (1000 + hs)
+                frec = _check.evaluate_faulty(ctx, fplan, tres, tdata)
+                frec["_case"] = fplan
+                with stats.lock:
+                    stats.hashseed_runs += 1
+                    if frec.get("escalated"):
+                        stats.hashseed_differs += 1
+                if frec.get("harness_error"):
+                    harness_errors.append(frec["harness_error"])
+                return frec
+
+            with ThreadPoolExecutor(jobs) as ex:
+                records[ix].extend(ex.map(one_hs, range(n)))
+        if sweep_jobs:
+            say("  hash-seed sweep: %d fresh interpreters with distinct PYTHONHASHSEED, %d with different bytes (%.0f s)" % (stats.hashseed_runs, stats.hashseed_differs, _perf() - t0))
+
         # sessions: sequences of invocations on one simulated machine
         splans = _plan.session_plans(tree, seed, tier) + _plan.crash_sweep_sessions(tree, seed, tier)
         if only_runs:
@@ -569,7 +598,7 @@ def run_campaign(tier, seed, jobs, only_runs=None):
                 known_hits.append((kf, g))
                 continue
             if gi < cfg["min_groups"]:
-                mini = _minimise.Minimiser(ctx, g["class"], sig, budget=cfg["min_budget"], jobs=max(2, jobs // 2))
+                mini = _minimise.Minimiser(ctx, g["class"], sig, budget=cfg["min_budget"], jobs=max(2, jobs // 2), hint=v.get("detail"))
                 mcase, final = mini.run(case)
                 if final is None:  # should not happen: the un-minimised case failed a moment ago
                     mcase, final = case, _check.evaluate_case(ctx, case)
@@ -768,6 +797,7 @@ def write_evidence(tier, seed, t0, ctx, stats, cov, det, exitm, reported, known_
             "faulty_executions": stats.faulty,
             "systematic_sweep_fault_variants": stats.sweep_variants,
             "standalone_header_compiles": stats.header_alone,
+            "hashseed_sweep": {"interpreters": stats.hashseed_runs, "with_different_bytes": stats.hashseed_differs},
             "tool_line_coverage": tool_line_coverage(stats),
             "sessions": {"sessions": stats.sessions, "invocations": stats.session_invocations, "outcomes": dict(sorted(stats.session_outcomes.items()))},
             "runs_per_hour": int(runs / wall * 3600) if wall > 0 else 0,
